@@ -44,7 +44,7 @@ func e2eAlphabet() []e2eElem {
 		{"flowStartMilliseconds", uint32(0)},
 		{"sourceIPv4Address", uint32(0)}, {"destinationClusterIPv4", registry.AntreaEnterpriseID},
 		{"sourceIPv6Address", uint32(0)},
-		{"ipHeaderPacketSection", uint32(0)}, // variable octet array
+		{"paddingOctets", uint32(0)}, // variable octet array - and an element like any other to a collector
 		{"verifOctets4", uint32(verifPEN)},   // fixed octet array
 	}
 	var out []e2eElem
